@@ -240,6 +240,19 @@ func decodeMsg(codec string, data []byte, typeName string) (proto.Message, error
 	return m, nil
 }
 
+// decodeMsgLenient: like decodeMsg but JSON discards unknown fields, which is the
+// documented default of vanguard's JSON codec; used to decide "must fail".
+func decodeMsgLenient(codec string, data []byte, typeName string) (proto.Message, error) {
+	if codec != CodecJSON {
+		return decodeMsg(codec, data, typeName)
+	}
+	m := newMessage(typeName)
+	if err := (protojson.UnmarshalOptions{DiscardUnknown: true}).Unmarshal(data, m); err != nil {
+		return nil, err
+	}
+	return m, nil
+}
+
 // canon returns a canonical byte form of a message for equality: deterministic
 // binary encoding (distinguishes -0 from 0, map order independent).
 func canon(m proto.Message) string {
